@@ -504,6 +504,25 @@ pub fn vcf_to_bcf(vcf: &[u8]) -> io::Result<Vec<u8>> {
     Ok(w.into_inner())
 }
 
+/// byte offsets of the records of an uncompressed BCF stream
+pub fn bcf_record_offsets(raw: &[u8]) -> Vec<usize> {
+    // magic(5) l_text(4) text, then records: l_shared(4) l_indiv(4) data
+    let mut v = vec![];
+    if raw.len() < 9 {
+        return v;
+    }
+    let l_text = u32::from_le_bytes([raw[5], raw[6], raw[7], raw[8]]) as usize;
+    let mut off = 9 + l_text;
+    while off + 8 <= raw.len() {
+        v.push(off);
+        let ls = u32::from_le_bytes([raw[off], raw[off + 1], raw[off + 2], raw[off + 3]]) as usize;
+        let li = u32::from_le_bytes([raw[off + 4], raw[off + 5], raw[off + 6], raw[off + 7]]) as usize;
+        off += 8 + ls + li;
+    }
+    v
+}
+
+
 pub fn bgzf_block(payload: &[u8], level: u32) -> Vec<u8> {
     use flate2::{write::DeflateEncoder, Compression, Crc};
     let mut enc = DeflateEncoder::new(Vec::new(), Compression::new(level));
